@@ -617,15 +617,16 @@ func (u *Unit) closure(lit *ast.FuncLit, env *Env) Value {
 					}
 				}
 				// postconditions of callees used by contract are consequences of reaching the call, not conditions on the arguments
-				var ante, facts []Term
+				// each fact holds under the conditions that precede it on the path; the result under all conditions
+				var ante []Term
 				for ci, cd := range conds {
 					if factIdx[ci] {
-						facts = append(facts, cd)
+						conj = append(conj, Imp(And(ante...), cd))
 					} else {
 						ante = append(ante, cd)
 					}
 				}
-				conj = append(conj, Imp(And(ante...), And(append(facts, Same(lhs, val))...)))
+				conj = append(conj, Imp(And(ante...), Same(lhs, val)))
 			}
 			body := And(conj...)
 			// generalise the parameter constants into bound variables
@@ -637,6 +638,53 @@ func (u *Unit) closure(lit *ast.FuncLit, env *Env) Value {
 				txt = replaceToken(txt, p.S, bv.S)
 				lhsTxt = replaceToken(lhsTxt, p.S, bv.S)
 				bvs = append(bvs, bv)
+			}
+			// values merged from mutually exclusive paths inside the body (dispatch over dynamic types, inlined callees with
+			// several returns) are determined by the path conditions that define them: generalise them with the parameters
+			for _, d := range u.D.order[declMark:] {
+				if !strings.HasPrefix(d, "(declare-const mres!") {
+					continue
+				}
+				rest := strings.TrimSuffix(strings.TrimPrefix(d, "(declare-const "), ")")
+				k := strings.Index(rest, " ")
+				if k < 0 {
+					continue
+				}
+				cname, csort := rest[:k], Sort(rest[k+1:])
+				if !containsToken(txt, cname) {
+					continue
+				}
+				bv := u.D.Bound("m", csort)
+				txt = replaceToken(txt, cname, bv.S)
+				bvs = append(bvs, bv)
+			}
+			// every other constant introduced while executing the body (results of callees used by contract, allocations)
+			// stands for "some value, for these arguments": it becomes a Skolem function of the parameters.  (Left as one
+			// global constant it would have to satisfy the callee postconditions for all arguments at once.)
+			if len(params) > 0 {
+				var psorts []Sort
+				var pargs []string
+				for k, p := range params {
+					psorts = append(psorts, p.Sort)
+					pargs = append(pargs, bvs[k].S)
+				}
+				for _, d := range u.D.order[declMark:] {
+					if !strings.HasPrefix(d, "(declare-const ") {
+						continue
+					}
+					rest := strings.TrimSuffix(strings.TrimPrefix(d, "(declare-const "), ")")
+					k := strings.Index(rest, " ")
+					if k < 0 {
+						continue
+					}
+					cname, csort := rest[:k], Sort(rest[k+1:])
+					if cname == clo.S || strings.HasPrefix(cname, "mres!") || !containsToken(txt, cname) {
+						continue
+					}
+					sk := "sk_" + strings.ReplaceAll(cname, "!", "_")
+					u.D.Fun(sk, csort, psorts...)
+					txt = replaceToken(txt, cname, "("+sk+" "+strings.Join(pargs, " ")+")")
+				}
 			}
 			if len(bvs) == 0 {
 				env.assume(Term{txt, SBool})
@@ -1129,7 +1177,7 @@ func (u *Unit) callByContract(c *ast.CallExpr, fi *FuncInfo, blk *Block, recv *V
 			// heaps at references allocated during the call (unconstrained so far); no heap needs to be replaced.
 			clk0 := env.clock
 			nc := u.D.Fresh("clk", SInt)
-			env.assume(le(clk0, nc))
+			u.assumeFact(env, le(clk0, nc))
 			env.clock = nc
 		} else {
 			u.havocForCall(env, pre, mods)
